@@ -42,3 +42,22 @@ Definition finit (ids : list nat) : fsys :=
 
 Definition written (st : fsys) : list nat := concat (files (fst st)).
 Definition errors (st : fsys) : nat := length (filter (fun w => match spcw w with SErr => true | _ => false end) (snd st)).
+
+(* a third protocol (seed C19-5): the write happens after the read lock is released, and a rotation keeps the
+   replaced file open until the NEXT rotation: a sender may still write to the generation just before cur *)
+Definition sstep_grace (s : fstate) (w : sender) : fstate * sender :=
+  match spcw w with
+  | SPick => (s, {| spcw := SWrite; held := cur s; mid := mid w |})
+  | SWrite =>
+      if Nat.leb (cur s) (S (held w)) then
+        ({| cur := cur s; files := upd (held w) (nth (held w) (files s) [] ++ [mid w]) (files s) |},
+         {| spcw := SDone; held := held w; mid := mid w |})
+      else (s, {| spcw := SErr; held := held w; mid := mid w |})
+  | _ => (s, w)
+  end.
+Definition fstep_grace (st : fsys) (i : nat) : fsys :=
+  match nth_error (snd st) i with
+  | Some w => let (s', w') := sstep_grace (fst st) w in (s', upd i w' (snd st))
+  | None => ({| cur := S (cur (fst st)); files := files (fst st) ++ [[]] |}, snd st)
+  end.
+Definition frun_grace (sched : list nat) (st : fsys) : fsys := fold_left fstep_grace sched st.
